@@ -1,6 +1,7 @@
 package sut
 
 import (
+	"bytes"
 	"context"
 	"fmt"
 	"net"
@@ -33,6 +34,7 @@ type ProbeProvider struct {
 type probeConn struct {
 	w     *world.World
 	conn  int
+	key   []byte
 	spec  *plan.ClientSpec
 	mu    sync.Mutex
 	count int
@@ -42,9 +44,19 @@ type probeConn struct {
 // assigned in client order (client i gets connection i+1).
 func NewProbeProvider(w *world.World, clients []plan.ClientSpec) *ProbeProvider {
 	p := &ProbeProvider{w: w, byKey: map[string]*probeConn{}}
+	// Like a key ring parsed from one blob, every connection's key is a sub-slice of one
+	// shared buffer: the slices handed to the server have spare capacity that overlaps
+	// the next key. Code that appends to a secret it was given corrupts its neighbour.
+	var ring []byte
+	offs := make([][2]int, len(clients))
+	for i := range clients {
+		offs[i] = [2]int{len(ring), len(ring) + len(clients[i].SrvKey)}
+		ring = append(ring, clients[i].SrvKey...)
+	}
+	ring = append(ring, 0, 0, 0, 0)
 	for i := range clients {
 		c := &clients[i]
-		p.byKey[AddrOf(c, i).String()] = &probeConn{w: w, conn: i + 1, spec: c}
+		p.byKey[AddrOf(c, i).String()] = &probeConn{w: w, conn: i + 1, spec: c, key: ring[offs[i][0]:offs[i][1]]}
 	}
 	return p
 }
@@ -82,7 +94,7 @@ func (p *ProbeProvider) Get(ctx context.Context, remote net.Addr) ([]byte, tq.Ha
 		p.w.Rec(world.Ev{Actor: "conn", Kind: "get-end", Conn: id, A: 0, S: "refused"})
 		return nil, nil, fmt.Errorf("no secret for %v", remote)
 	}
-	key := pc.spec.SrvKey
+	key := pc.key
 	if key == nil {
 		key = []byte{}
 	}
@@ -120,7 +132,8 @@ func (h *probeHandler) Handle(resp tq.Response, req tq.Request) {
 			}
 		}
 	}
-	pc.w.Rec(world.Ev{Actor: "conn", Kind: "invoke", Conn: pc.conn, A: int64(idx), B: int64(h.id), S: J(inv), Bytes: append([]byte(nil), req.Body...)})
+	entryBody := append([]byte(nil), req.Body...)
+	pc.w.Rec(world.Ev{Actor: "conn", Kind: "invoke", Conn: pc.conn, A: int64(idx), B: int64(h.id), S: J(inv), Bytes: entryBody})
 	defer func() {
 		if r := recover(); r != nil {
 			pc.w.Rec(world.Ev{Actor: "conn", Kind: "panic", Conn: pc.conn, S: fmt.Sprint(r)})
@@ -129,6 +142,10 @@ func (h *probeHandler) Handle(resp tq.Response, req tq.Request) {
 	}()
 	if st.Park {
 		pc.w.Park("handler")
+	}
+	// the request the handler holds must still be the request it was given
+	if !bytes.Equal(req.Body, entryBody) {
+		pc.w.Rec(world.Ev{Actor: "conn", Kind: "body-mutated", Conn: pc.conn, A: int64(idx)})
 	}
 	if st.Next > 0 {
 		resp.Next(&probeHandler{pc: pc, id: st.Next})
